@@ -39,6 +39,7 @@ where
 {
 	match input.into() {
 		Input::Slice(b) => {
+			vhit!(JSON_SLICE_PATH);
 			// Direct transcoding here would be nice, however the .end() method
 			// that we rely on is extremely slow in slice mode. serde_json only
 			// supports iteration if we allow it to deserialize into an actual
@@ -59,6 +60,7 @@ where
 			}
 		}
 		Input::Reader(r) => {
+			vhit!(JSON_READER_PATH);
 			// Direct transcoding here performs better than deserializing into a
 			// value. It looks like transcode::Value is forced to copy every
 			// string from a &str reference, which probably explains the
